@@ -2,6 +2,7 @@
 C11 (continued) — the floating point variation path and avar version 2.
 Models: Model/FloatDelta.lean (compute_scalar_f32, compute_float_delta, apply_float_delta, avar 2 step of
         Fvar::user_to_normalized) over the exact IEEE model Model/Ieee.lean + Model/IeeeArith.lean.
+(accuracy for any axis count: Props/C11FloatAcc.lean)
 Sections: 1 avar 2: shape, range, identities · 2 compute_float_delta walks the table like compute_delta ·
           3 the f32 tent scalar: range, support, peaks · 4 float deltas that are exact; avar 2 = clamp(v1 + Σδ)
 -/
@@ -245,12 +246,13 @@ theorem scalar_f32_one_axis (s p e c : Int) (hs : inI16 s) (hp : inI16 p) (he : 
     rw [this]
   · have := g.2.1; omega
 
-/-- **scalar_f32_one_axis_half_ulp** (accuracy of the f32 tent): on the rising leg of a one-axis
-region the result `n · 2^q` satisfies `2 · |n · (peak − start) − (coord − start) · 2^(−q)| ≤ peak − start`,
-i.e. it is within HALF a unit in the last place (`2^q`) of the exact rational tent value
-`(coord − start) / (peak − start)` — one correctly rounded operation — and that last place is
-`≤ 2⁻²³` relative (`n ≥ 2²³`) unless the result is subnormal.  (Falling leg: symmetric; several
-axes: each further axis adds two such roundings, see the report.) -/
+/-- **scalar_f32_one_axis_half_ulp** (accuracy of the f32 tent, sharp constant for one axis): on
+the rising leg of a one-axis region the result `n · 2^q` satisfies
+`2 · |n · (peak − start) − (coord − start) · 2^(−q)| ≤ peak − start`, i.e. it is within HALF a unit in
+the last place (`2^q`) of the exact tent value `(coord − start) / (peak − start)`: one correctly
+rounded operation; that last place is `≤ 2⁻²³` relative (`n ≥ 2²³`) unless the result is subnormal.
+For any number of axes see `scalar_f32_product_spec` (Props/C11FloatAcc.lean):
+`|scalar − Π tents| ≤ k · (2⁻²³ + 2⁻¹³⁵)`. -/
 theorem scalar_f32_one_axis_half_ulp (s p e c : Int) (hs : inI16 s) (hp : inI16 p) (he : inI16 e)
     (hc : inI16 c) (hi : ¬ Tent.Ignored s p e) (h1 : s < c) (h2 : c < p) :
     ∃ n q, computeScalarF32 [(s, p, e)] [c] = .fin false n q ∧ q ≤ 0 ∧
@@ -434,11 +436,16 @@ theorem clampUnit_clampI (x : Int) : clampUnit (FixedConv.clampI (-32768) 32767 
   unfold clampUnit FixedConv.clampI
   split <;> split <;> (try split) <;> (try split) <;> omega
 
-/-- **avar2_coord_integer_delta**: when the float delta for a coordinate is an integer `D` (in
-F2Dot14 units; `float_delta_at_peaks` says when) the new coordinate is EXACTLY
-`clamp(v₁ + D, −1, 1)`: the version-1 value plus the delta, clamped — every float step
-(`to_f32`, `· 2⁻¹⁴`, `as f32`, `+`, `from_f32`) is exact on these values. -/
-theorem avar2_coord_integer_delta (t : Avar2) (coords : List Int) (i : Nat) (v : Int)
+/-- **avar2_coord_value_partial**.
+FULL statement wanted: for every float delta `Δ` the new coordinate is
+`clamp(round(v₁ + Δ), −1, 1)` (round half away from zero).  That is NOT literally true of the code:
+`Δ · 2⁻¹⁴` is narrowed to f32 and added in f32 before `from_f32` rounds, so within ~2⁻⁷ units of a
+rounding tie the result may be the other neighbour (the harness oracle
+`avar2=clamp(round(v1+sum(delta*tent)))` allows exactly that slack).  PROVED here: when the float
+delta is an integer `D` (in F2Dot14 units; `float_delta_at_peaks` says when — e.g. at the masters)
+the new coordinate is EXACTLY `clamp(v₁ + D, −1, 1)`: every float step (`to_f32`, `· 2⁻¹⁴`,
+`as f32`, `+`, `from_f32`) is exact on these values. -/
+theorem avar2_coord_value_partial (t : Avar2) (coords : List Int) (i : Nat) (v : Int)
     (regions : List (List (Int × Int × Int))) (subs : List (Option Tent.SubTable))
     (o inner : Nat) (D : Int) (hstore : t.store = some (regions, subs))
     (hidx : avar2Index t i = some (o, inner))
@@ -462,7 +469,7 @@ theorem avar2_coord_zero_delta (t : Avar2) (coords : List Int) (i : Nat) (v : In
     (hv : inI16 v) : avar2Coord t coords i v = clampUnit v := by
   have hz : zero = ofInt f64 0 := by decide
   rw [hz] at hdelta
-  have := avar2_coord_integer_delta t coords i v regions subs o inner 0 hstore hidx hdelta hv (by decide)
+  have := avar2_coord_value_partial t coords i v regions subs o inner 0 hstore hidx hdelta hv (by decide)
   simpa using this
 
 -- non-vacuity: one axis, identity map, store with one region (0, 1, 1) and delta 8192 (0.5):
